@@ -10,9 +10,9 @@
 (*     records in exported order (ranks); rho_dagger = cores after 10.15; mark =       *)
 (*     offenders mark.  After an accepted block the posterior records become prior.   *)
 (*   GoPanic                            never accepted                                 *)
-(* Judgement (see DisputesFn header): accepted => not MustReject and the posterior     *)
-(* records / cores are exactly the specified ones (sorted, merged); rejected => the    *)
-(* strict reading rejects too.                                                         *)
+(* Judgement (see DisputesFn header): accepted => not SureInvalid (which includes the   *)
+(* statement's MustReject) and the posterior records / cores are exactly the specified  *)
+(* ones (sorted, merged); refused => the strict reading refuses too.                    *)
 EXTENDS DisputesFn, Json, TLC
 CONSTANTS TraceFile, ResultFile, KnownDeviations
 VARIABLES psi, vcount, allowed, l
@@ -27,16 +27,17 @@ CS(ev) == [i \in 1..Len(ev.culprits) |-> [t |-> ev.culprits[i].t, k |-> ev.culpr
 FS(ev) == [i \in 1..Len(ev.faults) |-> [t |-> ev.faults[i].t, k |-> ev.faults[i].k, v |-> ev.faults[i].v]]
 PsiOf(j) == [g |-> j.g, b |-> j.b, w |-> j.w, o |-> j.o]
 
-\* the parts of the strict reading that are about the raw extrinsic (10.3, 10.10, verdict shape)
-RawValid(ev, V) ==
-  /\ \A i \in 1..Len(ev.verdicts) :
+\* clauses about the raw extrinsic: certain ones (10.3 signatures and key set by age, 10.10 order of
+\* judgements, validator index in range) and the unsure one (number of judgements, see DisputesFn)
+RawSureInvalid(ev, V) ==
+  \/ \E i \in 1..Len(ev.verdicts) :
         LET vd == ev.verdicts[i] IN
-        /\ vd.age \in {"cur", "prev"}
-        /\ Len(vd.votes) = GoodN(V)
-        /\ \A j \in 1..Len(vd.votes) : vd.votes[j].sig = "ok" /\ vd.votes[j].i \in 0..(V - 1)
-        /\ StrictlySorted([j \in 1..Len(vd.votes) |-> vd.votes[j].i])
-  /\ \A i \in 1..Len(ev.culprits) : ev.culprits[i].sig = "ok"
-  /\ \A i \in 1..Len(ev.faults) : ev.faults[i].sig = "ok"
+        \/ vd.age \notin {"cur", "prev"}
+        \/ \E j \in 1..Len(vd.votes) : vd.votes[j].sig # "ok" \/ vd.votes[j].i \notin 0..(V - 1)
+        \/ ~StrictlySorted([j \in 1..Len(vd.votes) |-> vd.votes[j].i])
+  \/ \E i \in 1..Len(ev.culprits) : ev.culprits[i].sig # "ok"
+  \/ \E i \in 1..Len(ev.faults) : ev.faults[i].sig # "ok"
+RawCountOK(ev, V) == \A i \in 1..Len(ev.verdicts) : Len(ev.verdicts[i].votes) = GoodN(V)
 
 TReset == /\ Is("Reset")
           /\ psi' = PsiOf(e.psi)
@@ -46,9 +47,10 @@ TReset == /\ Is("Reset")
 TBlock ==
   /\ Is("Block")
   /\ LET vs == VS(e) cs == CS(e) fs == FS(e)
-         strict == RawValid(e, vcount) /\ SummaryValid(vcount, psi, vs, cs, fs, allowed)
+         sure == RawSureInvalid(e, vcount) \/ SureInvalid(vcount, psi, vs, cs, fs, allowed)
+         strict == ~sure /\ RawCountOK(e, vcount) /\ FaultTargetsJudged(vcount, psi, vs, cs, fs)
      IN IF e.ok
-        THEN /\ ~MustReject(vcount, psi, vs)                                   \* S1, S3
+        THEN /\ ~sure                                                         \* S1, S3 (MustReject) and the certain clauses
              /\ PsiOf(e.psi) = PsiNext(vcount, psi, vs, cs, fs)                \* S1, S2, S3 (sorted merge)
              /\ e.rho_dagger = RhoDagger(vcount, e.rho, vs)                    \* S4
              /\ e.mark = OffendersMark(cs, fs)                                 \* 10.20
